@@ -28,32 +28,36 @@ theorem trackRefines_of_covers {cfg : Config} (hc : Covers cfg = true) : TrackRe
     obtain ⟨st, h1, i1⟩ := run_inv hc (ops.take k) s hs
     exact ⟨s, st, rfl, h1, fun ht => observe_inv hc ht i1, fun hn => wouldCheck_inv hc hn i1⟩
 
-/-- a one-shot query is invisible to the specification -/
-theorem runOps_oneshot (a b : List Op) (q : Query) (f : Nat) :
-    runOps (a ++ Op.oneshot q f :: b) = runOps (a ++ b) := by
+/-- a call that is a `check` for the specification is invisible to it -/
+theorem runOps_check (a b : List Op) (o : Op) (ho : o.cmd = .check) :
+    runOps (a ++ o :: b) = runOps (a ++ b) := by
   unfold runOps AssertStack.run
-  simp only [List.map_append, List.map_cons, runFrom_append]
+  simp only [List.map_append, List.map_cons, runFrom_append, ho]
   cases AssertStack.runFrom init (a.map Op.cmd) with
   | none => rfl
-  | some s => simp [AssertStack.runFrom, Op.cmd, legal, AssertStack.step]
+  | some s => simp [AssertStack.runFrom, legal, AssertStack.step]
+
+theorem cmd_of_isOneshot {o : Op} (h : o.isOneshot = true) : o.cmd = .check := by
+  cases o <;> simp_all [Op.isOneshot, Op.cmd]
 
 /-- One-shot queries leave the assertions as they found them, *as observed through any later calls*: inserting
-    `is_sat f` / `is_valid f` / `is_unsat f` / `solve([f])` anywhere into a legal sequence changes neither the
-    assertion list read at the end nor what a final `solve()` is computed on (and raises nothing). -/
+    `is_sat f` / `is_valid f` / `is_unsat f` / `solve([f])` — answered normally, or ended by an exception of the native
+    check (unknown result) or of the assertion of `f` that the client catches — anywhere into a legal sequence changes
+    neither the assertion list read at the end nor what a final `solve()` is computed on, and makes no later call fail. -/
 def OneshotRestores (cfg : Config) : Prop :=
-  ∀ (before after : List Op) (q : Query) (f : Nat), LegalOps (before ++ after) →
-    ∃ st₁ st₂, SolverTrack.run cfg (before ++ Op.oneshot q f :: after) = .ok st₁ ∧
+  ∀ (before after : List Op) (o : Op), o.isOneshot = true → LegalOps (before ++ after) →
+    ∃ st₁ st₂, SolverTrack.run cfg (before ++ o :: after) = .ok st₁ ∧
       SolverTrack.run cfg (before ++ after) = .ok st₂ ∧
       (cfg.tracking = true → observe cfg st₁ = observe cfg st₂) ∧
       (cfg.native = true ∨ cfg.tracking = true → wouldCheck cfg st₁ = wouldCheck cfg st₂)
 
 theorem oneshotRestores_of_covers {cfg : Config} (hc : Covers cfg = true) : OneshotRestores cfg := by
-  intro a b q f hl
+  intro a b o ho hl
   unfold LegalOps at hl
   cases hs : runOps (a ++ b) with
   | none => simp [hs] at hl
   | some s =>
-    have hs' : runOps (a ++ Op.oneshot q f :: b) = some s := by rw [runOps_oneshot]; exact hs
+    have hs' : runOps (a ++ o :: b) = some s := by rw [runOps_check a b o (cmd_of_isOneshot ho)]; exact hs
     obtain ⟨st1, h1, i1⟩ := run_inv hc _ s hs'
     obtain ⟨st2, h2, i2⟩ := run_inv hc _ s hs
     refine ⟨st1, st2, h1, h2, fun ht => ?_, fun hn => ?_⟩
